@@ -20,7 +20,10 @@ RULE = ('values are generated from components (lexical year from leap/century/40
         'calendar.py (own day-number arithmetic, exact Fractions). non-trivial = a year outside [1,9999], or a timezone '
         'on an operand, or day >= 29, or a fractional second, or (durations) both months and seconds or a negative '
         'value; distinct by canonical JSON case. durgrid: complete enumeration of a finite grid (month pairs up to 24 x the '
-        'boundaries of the four XSD reference spans +- 12 h x sign) for the partial order of xs:duration.')
+        'boundaries of the four XSD reference spans +- 12 h x sign) for the partial order of xs:duration. A quarter of '
+        'the dateTime/date pairs straddle a year boundary (1 BCE|0001, -0001|0000, 9999|10000, -10000|-9999, ordinary '
+        'years) with timezones built to swap the order of the year fields or to hit the same instant. adjhist: JSON '
+        'histories of 2-3 evaluations sharing two python objects ($d, $z) handed to adjust-*-to-timezone by reference.')
 ASSUMPTIONS = [
     'XSD 1.0 is self-inconsistent about which BCE years are leap (no year 0, yet Appendix E computes leap years from '
     'the lexical number): for XSD 1.0 values with a BCE year only implementation-independent laws are asserted '
@@ -34,6 +37,9 @@ ASSUMPTIONS = [
     'OverflowError (API) / FODT0001 (XPath) is accepted instead of the value; any value returned is still judged',
     'duration * / div by a number: results compared within 1 microsecond (F&O leaves the rounding open)',
     'the python-level year property is not judged (internal numbering); year-from-* through XPath is',
+    'fn:max/min/sort/distinct-values/index-of: no verdict when only the implicit timezone of the context decides '
+    '(one operand without timezone and a non-UTC context timezone): elementpath applies the implicit timezone in '
+    'comparison and arithmetic operators only (limitation recorded, class minmax:implicit-tz-unjudged)',
     'xs:duration values that are incomparable in the XSD partial order: only < > = != are judged (all four reference '
     'dateTimes of XSD 3.3.6.2), not <= >=',
 ]
@@ -43,6 +49,9 @@ FLOORS = {
     'order:years-differ+tz': (0.10, 'order:case'), 'arith:crosses-year': (0.20, 'arith:case'),
     'ym:clamped': (0.10, 'arith:ym'), 'ref:judged': (0.70, 'dt:case'), 'ym:in-range': (0.25, 'arith:ym'),
     'dur:order-incomparable': (0.05, 'dur:duration'), 'xorder:implicit-tz': (0.03, 'xpath:case'),
+    'adjyears:swapped-or-equal': (0.08, 'order:case'), 'adjyears:era:swapped-or-equal': (0.015, 'order:case'),
+    'xadjyears:swapped-or-equal': (0.05, 'xpath:case'), 'xadjyears:era:swapped-or-equal': (0.01, 'xpath:case'),
+    'diff-adjyears:era': (0.02, 'arith:case'), 'adjhist:no-arith': (0.5, 'adjhist:case'), 'minmax:judged': (0.3, 'xpath:case'),
 }
 
 BIG = 2 ** 31
@@ -150,6 +159,56 @@ def _second(draw, xsd, a, t):
 
 _xsd = st.sampled_from(['1.0', '1.1'])
 
+_BOUNDARY_YEARS = [0, 0, 0, 0, -1, -1, 9999, 9999, -10000, -10000, 1, -2, 10000, 'r', 'r', 'r']     # astronomical, earlier year
+_TZ_WEST = [-840, -839, -720, -600, -330, -300, -60, -1, 0, None, 60]
+_TZ_EAST = [840, 839, 720, 600, 330, 300, 60, 1, 0, None, -60]
+
+
+@st.composite
+def _boundary_pair(draw, xsd, t, itz=0):
+    """two values on either side of a year boundary (astronomical Y-12-31 / Y+1-01-01) whose timezones (explicit,
+    or the implicit one `itz` for values without) put them in the opposite order, on the same instant, or leave
+    them free; Y from the era boundary (1 BCE / 0001), 0000/-0001 (XSD 1.1 numbering), 9999/10000, -10000/-9999
+    and ordinary years"""
+    Y = draw(st.sampled_from(_BOUNDARY_YEARS))
+    if Y == 'r':
+        Y = draw(st.integers(-12000, 12000))
+    mode = draw(st.sampled_from(['equal', 'equal', 'swap', 'swap', 'free']))
+    us = draw(st.sampled_from([0, 0, 0, 500000, 1, 999999]))
+    tza = draw(st.sampled_from(_TZ_WEST))
+    ea = itz if tza is None else tza
+    if t == 'date':
+        ra = cal.V(Y, 12, 31, tz=tza)
+        tzb = draw(st.sampled_from(_TZ_EAST))
+        if mode != 'free':
+            want = ea + 1440 + (draw(st.sampled_from([1, 30, 60])) if mode == 'swap' else 0)
+            tzb = want if want <= 840 else tzb
+        rb = cal.V(Y + 1, 1, 1, tz=tzb)
+    else:
+        ra = cal.V(Y, 12, 31, draw(st.integers(10, 23)), draw(st.sampled_from([0, 0, 30, 59, 1])),
+                   draw(st.sampled_from([0, 0, 59, 15])), us, tza)
+        tzb = draw(st.sampled_from(_TZ_EAST))
+        eb = itz if tzb is None else tzb
+        if mode == 'free':
+            rb = cal.V(Y + 1, 1, 1, draw(st.integers(0, 13)), draw(st.sampled_from([0, 0, 30, 59])), 0,
+                       draw(st.sampled_from([0, 0, 500000])), tzb)
+        else:
+            inst = cal.instant(ra, itz)
+            if mode == 'swap':
+                inst -= Fraction(draw(st.sampled_from([1, 10 ** 6, 60 * 10 ** 6, 3600 * 10 ** 6])), 10 ** 6)
+            rb = cal.from_local_seconds(inst + eb * 60, tzb)
+    a, b = _to_lex(ra, xsd), _to_lex(rb, xsd)
+    return (a, b) if draw(st.booleans()) else (b, a)
+
+
+@st.composite
+def _pair(draw, xsd, t, itz=0):
+    """the two operands of a binary check"""
+    if t in ('dateTime', 'date') and draw(st.integers(0, 2)) == 0:
+        return draw(_boundary_pair(xsd, t, itz))
+    a = draw(_value(xsd, yearless=t in ('gMonthDay', 'gDay', 'gMonth', 'time')))
+    return a, draw(_second(xsd, a, t))
+
 
 @st.composite
 def _dur_us(draw):
@@ -192,16 +251,15 @@ def _case_value(draw):
 def _case_arith(draw):
     xsd = draw(_xsd)
     t = draw(st.sampled_from(['dateTime', 'dateTime', 'date', 'date', 'time']))
-    a = draw(_value(xsd, yearless=t == 'time'))
-    return {'xsd': xsd, 't': t, 'a': a, 'b': draw(_second(xsd, a, t)), 'x': draw(_dur_us()), 'm': draw(_months())}
+    a, b = draw(_pair(xsd, t))
+    return {'xsd': xsd, 't': t, 'a': a, 'b': b, 'x': draw(_dur_us()), 'm': draw(_months())}
 
 
 @st.composite
 def _case_order(draw):
     xsd = draw(_xsd)
     t = draw(st.sampled_from(FULL + FULL + FULL + GTYPES))
-    a = draw(_value(xsd, yearless=t in ('gMonthDay', 'gDay', 'gMonth', 'time')))
-    b = draw(_second(xsd, a, t))
+    a, b = draw(_pair(xsd, t))
     c = draw(_second(xsd, draw(st.sampled_from([a, b])), t))
     return {'xsd': xsd, 't': t, 'a': a, 'b': b, 'c': c}
 
@@ -210,21 +268,35 @@ def _case_order(draw):
 def _case_xpath(draw):
     xsd = draw(_xsd)
     t = draw(st.sampled_from(FULL + FULL + FULL + GTYPES))
-    a = draw(_value(xsd, yearless=t in ('gMonthDay', 'gDay', 'gMonth', 'time')))
-    return {'xsd': xsd, 't': t, 'a': a, 'b': draw(_second(xsd, a, t)), 'x': draw(_dur_us()), 'm': draw(_months()),
-            'ctz': draw(st.sampled_from([None, None, 0, 300, -300, 840, -840, 330, 'r'])),
-            'adj': draw(st.sampled_from([0, 600, -600, 840, -840, 330, -1, 'r'])),
-            'parser': draw(st.sampled_from(['2', '2', '31']))}
+    ctz = draw(st.sampled_from([None, None, 0, 300, -300, 840, -840, 330, 'r']))
+    adj = draw(st.sampled_from([0, 600, -600, 840, -840, 330, -1, 'r']))
+    ctz = draw(st.integers(-840, 840)) if ctz == 'r' else ctz
+    adj = draw(st.integers(-840, 840)) if adj == 'r' else adj
+    a, b = draw(_pair(xsd, t, ctz or 0))
+    return {'xsd': xsd, 't': t, 'a': a, 'b': b, 'x': draw(_dur_us()), 'm': draw(_months()),
+            'ctz': ctz, 'adj': adj, 'parser': draw(st.sampled_from(['2', '2', '31']))}
 
 
-def _fix_r(case, draw):
-    for k in ('ctz', 'adj'):
-        if case[k] == 'r':
-            case[k] = draw(st.integers(-840, 840))
-    return case
+case_xpath = _case_xpath()
+
+_ADJ_KINDS = ['adj2', 'adj2', 'adjE', 'adjE', 'adj1', 'for2', 'forE', 'for1', 'tuple2', 'tupleE', 'let2']
 
 
-case_xpath = st.composite(lambda draw: _fix_r(draw(_case_xpath()), draw))()
+@st.composite
+def _case_adjhist(draw):
+    """a history of 2-3 evaluations that share the caller's python objects $d and $z"""
+    xsd = draw(_xsd)
+    t = draw(st.sampled_from(FULL))
+    d = draw(_value(xsd, yearless=t == 'time'))
+    if draw(st.booleans()):
+        d = dict(d, tz=None)                       # 'value without timezone + timezone argument'
+    z = draw(_second(xsd, d, t))
+    steps = []
+    for _ in range(draw(st.integers(2, 3))):
+        ctz = draw(st.sampled_from([None, 0, 300, -300, 840, -840, 330, -1]))
+        steps.append({'k': draw(st.sampled_from(_ADJ_KINDS)), 'adj': draw(st.sampled_from([0, 600, -600, 840, -840, 330, -1, 59])),
+                      'ctz': ctz})
+    return {'xsd': xsd, 't': t, 'd': d, 'z': z, 'steps': steps, 'parser': draw(st.sampled_from(['2', '31']))}
 
 def _ymd(v):
     return v['y'], v['mo'], v['d']
@@ -410,21 +482,10 @@ def _inst(t, rv, itz=0):
 
 
 def _gate(t, rv, xsd):
-    """input classes whose *construction or printing* is already wrong on the pinned tree (judged by the
-    'value' check only; other checks skip such operands and count them)"""
-    if t not in HAS_YEAR:
-        return None
-    y = rv['y']
-    if t == 'dateTime' and rv['h'] == 24 and (rv['mo'], rv['d']) == (12, 31) and not 1 <= y <= 9999:
-        return 'h24-dec31-year-out-of-range'
-    if xsd == '1.1' and y > 9999 and t in ('dateTime', 'date'):
-        if (rv['mo'], rv['d']) == (2, 29):
-            return 'leap-proxy-big-1.1'
-        if t == 'dateTime' and rv['h'] == 24 and (rv['mo'], rv['d']) == (2, 28) and cal.is_leap(y) != cal.is_leap(y + 1):
-            return 'leap-proxy-big-1.1'
-    if xsd == '1.1' and cal.lex_year(_canon(t, rv)['y'], xsd) <= -9999:
-        return 'print-1.1-le--9999'
-    if xsd == '1.0' and y <= 0 and t == 'dateTime' and rv['h'] == 24 and (rv['mo'], rv['d']) == (2, 28):
+    """input classes that are never judged ('open'). (The classes whose construction or printing was wrong on the
+    pinned tree - 24:00:00 on Dec 31 outside 1..9999, Feb 29 of years > 9999 and years <= -9999 under XSD 1.1 -
+    were gated here until their repairs were committed; they are ordinary inputs now.)"""
+    if xsd == '1.0' and t == 'dateTime' and rv['y'] <= 0 and rv['h'] == 24 and (rv['mo'], rv['d']) == (2, 28):
         return 'open'           # XSD 1.0 BCE: which day follows Feb 28 is not defined -> never judged
     return None
 
@@ -684,7 +745,7 @@ def judge_arith(case, rec: Recorder | None = None):
     C = _api_classes(xsd)
     discs: list[Disc] = []
     ra, rb = _ref(case['a'], xsd, t), _ref(case['b'], xsd, t)
-    cl = _classes_of([ra, rb], t) + ['arith:case', 'xsd:' + xsd]
+    cl = _classes_of([ra, rb], t) + ['arith:case', 'xsd:' + xsd] + ['diff-' + c for c in _pair_classes(t, ra, rb)]
     A = _operand(C, t, ra, xsd, discs, 'arith', cl)
     B = _operand(C, t, rb, xsd, discs, 'arith', cl)
     judged = False
@@ -787,7 +848,7 @@ def _judge_diff(D, A, B, t, ra, rb, xsd, discs):
     judged = False
     yl = t != 'time'
     huge = yl and _huge(ra, rb)
-    amb = yl and _amb(xsd, ra, rb)
+    amb = yl and _amb_between(xsd, t, ra, rb)
     sa, sb = fmt(t, _canon(t, ra), xsd), fmt(t, _canon(t, rb), xsd)
     exp = _inst(t, rb) - _inst(t, ra)
     fam = _fam('bce@1.0' if amb else None, _diff_fam(exp))
@@ -836,6 +897,24 @@ import operator as _op
 _OPS = [('lt', _op.lt), ('le', _op.le), ('eq', _op.eq), ('ne', _op.ne), ('ge', _op.ge), ('gt', _op.gt)]
 
 
+_FEB_END = ((2, 26), (2, 27), (2, 28), (2, 29), (3, 1), (3, 2), (3, 3))
+
+
+def _amb_between(xsd, t, r1, r2):
+    """XSD 1.0: the elapsed time between two values is only open when the end of February of a BCE year
+    (astronomical year <= 0) lies between them (2 days margin for timezones)"""
+    if xsd != '1.0' or t not in HAS_YEAR:
+        return False
+    lo, hi = sorted([cal.instant(_canon(t, r1), 0), cal.instant(_canon(t, r2), 0)])
+    lo, hi = lo - 2 * 86400, hi + 2 * 86400
+    ylo = min(r1['y'], r2['y']) - 1
+    if ylo > 0:
+        return False
+    if hi - lo > 367 * 86400:
+        return True
+    return any(y <= 0 and lo <= cal.instant(cal.V(y, 3, 1), 0) <= hi for y in range(ylo, max(r1['y'], r2['y']) + 2))
+
+
 def _rel(x, y):
     return '<' if x < y else '>' if x > y else '='
 
@@ -852,9 +931,32 @@ def _order_verdict(t, xsd, r1, r2, itz=0):
     if t in HAS_YEAR and _amb(xsd, r1, r2):
         e1 = r1['tz'] if r1['tz'] is not None else itz
         e2 = r2['tz'] if r2['tz'] is not None else itz
-        if e1 != e2 and abs(i1 - i2) <= 86400:
+        # within a day of each other the conventions can only disagree when the end of February lies between
+        if e1 != e2 and abs(i1 - i2) <= 86400 and \
+                any((c['mo'], c['d']) in _FEB_END for c in (_canon(t, r1), _canon(t, r2))):
             return None
     return _rel(i1, i2)
+
+
+_BOUNDARY_NAMES = {0: 'era', -1: '-0001|0000', 9999: '9999|10000', -10000: '-10000|-9999'}
+
+
+def _pair_classes(t, r1, r2, itz=0):
+    """histogram classes of a pair: local years adjacent, at which boundary, and whether the instants order the
+    two against their year fields (swapped) or make them equal"""
+    if t not in ('dateTime', 'date'):
+        return []
+    c1, c2 = _canon(t, r1), _canon(t, r2)
+    if abs(c1['y'] - c2['y']) != 1:
+        return []
+    lo = min(c1['y'], c2['y'])
+    name = _BOUNDARY_NAMES.get(lo, 'ordinary')
+    i1, i2 = _inst(t, r1, itz), _inst(t, r2, itz)
+    rel = 'equal' if i1 == i2 else 'swapped' if (i1 < i2) != (c1['y'] < c2['y']) else 'year-order'
+    out = ['adjyears', 'adjyears:' + name, 'adjyears:' + rel]
+    if rel != 'year-order':
+        out += ['adjyears:swapped-or-equal', f'adjyears:{name}:swapped-or-equal']
+    return out
 
 
 def _pair_fam(t, r1, r2, xsd):
@@ -890,6 +992,7 @@ def judge_order(case, rec: Recorder | None = None):
             pf = _pair_fam(t, refs[i], refs[j], xsd)
             if i < j:
                 cl.append('order:' + pf)
+                cl.extend(_pair_classes(t, refs[i], refs[j]))
             verdict = _order_verdict(t, xsd, refs[i], refs[j])
             desc = f'{fmt(t, refs[i], xsd)} vs {fmt(t, refs[j], xsd)}'
             obs = {}
@@ -951,10 +1054,11 @@ class _Raised:
         self.exc = exc
 
 
-def _xeval(case, expr):
+def _xeval(case, expr, variables=None):
     from elementpath import XPathContext
     ctz = case.get('ctz')
-    ctx = XPathContext(root=None, item=1, timezone=None if ctz is None else (cal.fmt_tz(ctz) if ctz else '+00:00'))
+    ctx = XPathContext(root=None, item=1, timezone=None if ctz is None else (cal.fmt_tz(ctz) if ctz else '+00:00'),
+                       variables=variables)
     try:
         return _parser(case['parser'], case['xsd']).parse(expr).evaluate(ctx)
     except Exception as e:
@@ -1090,7 +1194,7 @@ def judge_xpath(case, rec: Recorder | None = None):
         ifam = 'implicit-tz' if mixed and ctz else None       # the context timezone decides
         if t in FULL:
             huge = yl and _huge(ra, rb)
-            amb = yl and _amb(xsd, ra, rb)
+            amb = yl and _amb_between(xsd, t, ra, rb)
             exp = _inst(t, rb, itz) - _inst(t, ra, itz)
             if not amb:
                 judged = True
@@ -1110,6 +1214,7 @@ def judge_xpath(case, rec: Recorder | None = None):
             judged = True
             pf = _fam(ifam, _pair_fam(t, ra, rb, xsd))
             cl.append('xorder:' + pf)
+            cl.extend('x' + c for c in _pair_classes(t, ra, rb, itz))
             for style, sym in (('value', lambda n: n), ('general', lambda n: _GEN[n])):
                 expr = '(' + ', '.join(f'{la} {sym(n)} {lb}' for n in names) + ')'
                 want = [_TRUTH[verdict][n] for n in names]
@@ -1120,6 +1225,8 @@ def judge_xpath(case, rec: Recorder | None = None):
                     bad = [n for n, w, g in zip(names, want, r) if w != g] if isinstance(r, list) and len(r) == len(want) else names
                     discs.append(Disc(_bk(pf, 'eq' if set(bad) <= {'eq', 'ne'} else 'order', f'xpath/compare-{style}/{t}'),
                                       f'{verdict} {want}', r, expr))
+            if t in FULL:
+                _xpath_minmax(case, discs, cl, t, verdict, la, lb, sa, sb, pf, mixed and bool(ctz))
     if a_ok:
         judged = _xpath_adjust(case, discs, t, ra, la, xsd, ctz, adj) or judged
         judged = _xpath_components(case, discs, t, ra, la, xsd) or judged
@@ -1131,6 +1238,28 @@ def judge_xpath(case, rec: Recorder | None = None):
             cl.append('ref:judged')
         rec.case(case, nontrivial=_nontrivial(cl), sample={'check': 'xpath', 'case': case}, classes=sorted(set(cl)))
     return discs
+
+
+def _xpath_minmax(case, discs, cl, t, verdict, la, lb, sa, sb, pf, implicit_decides):
+    """fn:max / fn:min / fn:sort / fn:distinct-values / fn:index-of order and identify the two values by their
+    instants. No verdict where only the implicit timezone decides: these functions take UTC for values without
+    timezone (recorded limitation, class minmax:implicit-tz-unjudged)."""
+    if implicit_decides:
+        cl.append('minmax:implicit-tz-unjudged')
+        return
+    cl.append('minmax:judged')
+    where = f'xpath/%s/{t}'
+    n_distinct = 1 if verdict == '=' else 2
+    _xcheck(discs, dict(case, t='-'), f'(count(distinct-values(({la}, {lb}))), count(index-of(({la}, {lb}), {lb})))',
+            [n_distinct, 3 - n_distinct], _bk(pf, '{kind}', where % 'distinct-values+index-of'))
+    if verdict == '=':
+        return                  # which of two equal values is returned is not defined
+    lo, hi = (sa, sb) if verdict == '<' else (sb, sa)
+    _xcheck(discs, case, f'(string(max(({la}, {lb}))), string(min(({la}, {lb}))), string(max(({lb}, {la}))), string(min(({lb}, {la}))))',
+            [hi, lo, hi, lo], _bk(pf, '{kind}', where % 'max-min'))
+    if case['parser'] == '31':
+        _xcheck(discs, case, f'(sort(({la}, {lb})) ! string(.), sort(({lb}, {la})) ! string(.))', [lo, hi, lo, hi],
+                _bk(pf, '{kind}', where % 'sort'))
 
 
 def _xpath_adjust(case, discs, t, ra, la, xsd, ctz, adj):
@@ -1369,6 +1498,115 @@ def _judge_dur_components(discs, xcase, kind, m, s, c):
 
 
 # --------------------------------------------------------------------------
+# check 'adjhist': caller-owned values survive adjust-*-to-timezone (histories of evaluations sharing objects)
+# --------------------------------------------------------------------------
+
+def _tzdur(tz):
+    return '' if tz is None else cal.fmt_duration(0, Fraction(tz * 60))
+
+
+def judge_adjhist(case, rec: Recorder | None = None):
+    """$d and $z are python objects built once; every step evaluates an expression that hands $d to
+    adjust-*-to-timezone by reference (variable, for/let binding); after every step the objects must print as
+    before and every result must be the reference result for the ORIGINAL values"""
+    xsd, t = case['xsd'], case['t']
+    C = _api_classes(xsd)
+    discs: list[Disc] = []
+    rd, rz = _ref(case['d'], xsd, t), _ref(case['z'], xsd, t)
+    cl = ['adjhist:case', 'adjhist:d-' + ('tz' if rd['tz'] is not None else 'no-tz')]
+    objs = {}
+    for name, rv in (('d', rd), ('z', rz)):
+        if _gate(t, rv, xsd) == 'open':
+            objs = None
+            break
+        o = _build(C, t, rv, xsd, 0, discs, 'adjhist', None)
+        if o is None or str(o) != fmt(t, _canon(t, rv), xsd):
+            objs = None             # reported by the 'value' check
+            break
+        objs[name] = o
+    if objs is None:
+        if rec is not None:
+            rec.case(case, nontrivial=False, classes=cl + ['adjhist:skipped'])
+        return discs
+    sd, sz = fmt(t, _canon(t, rd), xsd), fmt(t, _canon(t, rz), xsd)
+    src = _canon(t, rd)
+    yl = t in HAS_YEAR
+    fn = f'adjust-{t}-to-timezone'
+    over = yl and _huge(rd, rz)
+
+    def adj_expect(tz):
+        """(expected string or None when XSD 1.0 BCE leaves the neighbouring day open)"""
+        exp = cal.adjust_to_timezone(src, tz, t)
+        moved = (exp['y'], exp['mo'], exp['d']) != (src['y'], src['mo'], src['d'])
+        if yl and _amb(xsd, rd, exp) and moved:
+            return None
+        return fmt(t, exp, xsd)
+
+    def unchanged(where, expr):
+        ok = True
+        for name, want in (('d', sd), ('z', sz)):
+            got = str(objs[name])
+            if got != want:
+                ok = False
+                discs.append(Disc(_bk('plain', 'caller-object-mutated:' + diff_fields(t, want, got), f'adjhist/{where}/{t}'),
+                                  want, got, f'${name} after {expr}'))
+                objs[name] = C[t].fromstring(want)          # re-synchronise: the history continues
+        return ok
+
+    for i, st_ in enumerate(case['steps']):
+        k, ctz = st_['k'], st_['ctz']
+        if k.endswith('1') and ctz is None:
+            k = k[:-1] + '2'                                # the one-argument form needs a context timezone
+        if k == 'let2' and case['parser'] != '31':
+            k = 'for2'
+        xc = {'parser': case['parser'], 'xsd': xsd, 'ctz': ctz, 't': t}
+        arg = {'2': f", {_dlit(st_['adj'] * 60 * 10 ** 6)}", 'E': ', ()', '1': ''}[k[-1]]
+        tz = {'2': st_['adj'], 'E': None, '1': ctz}[k[-1]]
+        want_adj = adj_expect(tz)
+        cl.append('adjhist:' + ('no-arith' if rd['tz'] is None or tz is None else 'arith'))
+        if k.startswith('adj'):
+            expr, want = f'string({fn}($d{arg}))', [want_adj]
+        elif k.startswith('for'):
+            expr, want = f'for $x in $d return (string({fn}($x{arg})), string($x))', [want_adj, sd]
+        elif k.startswith('let'):
+            expr, want = f'let $x := $d return (string({fn}($x{arg})), string($x), string($d))', [want_adj, sd, sd]
+        else:   # tuple: the adjusted value and the caller's value used again in the same expression
+            itz = ctz or 0
+            eqv = _order_verdict(t, xsd, rd, rz, itz)
+            diff = None if yl and _amb_between(xsd, t, rd, rz) else cal.fmt_duration(0, _inst(t, rd, itz) - _inst(t, rz, itz))
+            expr = f'(string({fn}($d{arg})), string($d), string(timezone-from-{t}($d)), $d eq $z, string($d - $z), string($d))'
+            want = [want_adj, sd, _tzdur(rd['tz']), None if eqv is None else eqv == '=', diff, sd]
+        r = _xeval(xc, expr, variables=objs)
+        if isinstance(r, _Raised):
+            from elementpath import ElementPathError
+            if not (over and _is_overflow(r.exc)) and not (yl and abs(src['y']) >= BIG - 2 and _is_overflow(r.exc)):
+                kind = 'error:' + str(getattr(r.exc, 'code', '?')).replace('err:', '') if isinstance(r.exc, ElementPathError) \
+                    else escape_bucket('C11', r.exc).replace('C11/escape/', 'escape:')
+                discs.append(Disc(_bk('plain', kind, f'adjhist/{k}/{t}'), want, repr(r.exc), expr))
+        else:
+            got = _xs(r) if isinstance(r, list) else [_xs(r)]
+            if len(got) != len(want):
+                discs.append(Disc(_bk('plain', 'arity', f'adjhist/{k}/{t}'), want, got, expr))
+            else:
+                bad = [j for j, (w, g) in enumerate(zip(want, got)) if w is not None and w != g]
+                if bad:
+                    kind = diff_fields(t, want[bad[0]], got[bad[0]]) if isinstance(want[bad[0]], str) and parse_lex(t, want[bad[0]]) else 'value'
+                    discs.append(Disc(_bk('plain', f'item{bad[0]}:{kind}', f'adjhist/{k}/{t}'), want, got, f'step {i}: {expr}'))
+        unchanged(k, expr)
+    # afterwards the caller's values are what they were: probe them in a fresh evaluation
+    xc = {'parser': case['parser'], 'xsd': xsd, 'ctz': None, 't': t}
+    eqv = _order_verdict(t, xsd, rd, rz, 0)
+    want = [sd, _tzdur(rd['tz']), sz, None if eqv is None else eqv == '=']
+    r = _xeval(xc, f'(string($d), string(timezone-from-{t}($d)), string($z), $d eq $z)', variables=objs)
+    got = None if isinstance(r, _Raised) else _xs(r)
+    if got is None or len(got) != 4 or any(w is not None and w != g for w, g in zip(want, got)):
+        discs.append(Disc(_bk('plain', 'value', f'adjhist/probe/{t}'), want, repr(r.exc) if got is None else got, 'after the history'))
+    if rec is not None:
+        rec.case(case, nontrivial=True, sample={'check': 'adjhist', 'case': case}, classes=sorted(set(cl)))
+    return discs
+
+
+# --------------------------------------------------------------------------
 # check 'durgrid': finite grid on the XSD partial order of xs:duration (python API), enumerated
 # --------------------------------------------------------------------------
 _GRID_MONTHS = 24
@@ -1419,10 +1657,10 @@ def judge_durgrid(case, rec: Recorder | None = None):
 # --------------------------------------------------------------------------
 # module interface
 # --------------------------------------------------------------------------
-_STRATS = {'value': _case_value(), 'arith': _case_arith(), 'order': _case_order(), 'xpath': case_xpath,
+_STRATS = {'value': _case_value(), 'arith': _case_arith(), 'order': _case_order(), 'xpath': case_xpath, 'adjhist': _case_adjhist(),
            'duration': _case_duration()}
 _JUDGES = {'value': judge_value, 'arith': judge_arith, 'order': judge_order, 'xpath': judge_xpath,
-           'duration': judge_duration, 'durgrid': judge_durgrid}
+           'duration': judge_duration, 'durgrid': judge_durgrid, 'adjhist': judge_adjhist}
 
 
 def selftest():
@@ -1458,7 +1696,7 @@ def selftest():
 
 _PLAN = {  # check: (quick shards, quick n, thorough shards, thorough n)
     'value': (3, 8000, 3, 110000), 'arith': (4, 6000, 4, 80000), 'order': (3, 6000, 3, 80000),
-    'xpath': (5, 2500, 5, 35000), 'duration': (1, 4000, 1, 50000),
+    'xpath': (5, 2500, 5, 35000), 'duration': (1, 4000, 1, 50000), 'adjhist': (2, 2500, 2, 30000),
 }
 
 
